@@ -135,7 +135,7 @@ func interpretChain(w *World, rq *Req, chain []string) []string {
 		out = append(out, "e"+id)
 		for _, a := range w.script(rs, id) {
 			switch a.Op {
-			case "next":
+			case "next", "wrapnext", "nextrecover":
 				next()
 			case "abort", "abortthen", "abortstatus":
 				aborted = true
@@ -240,7 +240,7 @@ func checkC04(sc *Scenario) *CheckOut {
 
 func init() {
 	rule := "a request is non-trivial when the prescribed chain has at least three handlers"
-	register(&Profile{Prop: "C04", Name: "single", Quick: 10000, Thorough: 600000, Gen: genC04("single"), Check: checkC04, Rule: rule})
-	register(&Profile{Prop: "C04", Name: "concurrent", Quick: 6000, Thorough: 400000, Gen: genC04("concurrent"), Check: checkC04, Rule: rule})
-	register(&Profile{Prop: "C04", Name: "long", Quick: 2000, Thorough: 100000, Gen: genC04("long"), Check: checkC04, Rule: rule})
+	register(&Profile{Prop: "C04", Name: "single", Quick: 30000, Thorough: 600000, Gen: genC04("single"), Check: checkC04, Rule: rule})
+	register(&Profile{Prop: "C04", Name: "concurrent", Quick: 18000, Thorough: 400000, Gen: genC04("concurrent"), Check: checkC04, Rule: rule})
+	register(&Profile{Prop: "C04", Name: "long", Quick: 6000, Thorough: 100000, Gen: genC04("long"), Check: checkC04, Rule: rule})
 }
